@@ -45,7 +45,8 @@ func Build14(dir string, perSeg int) ([]pub, []string, error) {
 		if i == n-2 {
 			key = []byte("c") // a key that lives only in the newest segment
 		}
-		m := klevdb.Message{Time: time.UnixMicro(int64(1_000_000 + i)).UTC(), Key: key, Value: []byte(fmt.Sprintf("v%02d", i))}
+		// the last message of a segment and the first of the next share their time
+		m := klevdb.Message{Time: time.UnixMicro(int64(1_000_000 + i - i/perSeg)).UTC(), Key: key, Value: []byte(fmt.Sprintf("v%02d", i))}
 		if _, err := lg.Publish([]klevdb.Message{m}); err != nil {
 			return nil, nil, err
 		}
@@ -392,6 +393,21 @@ func run14(t Task) Result {
 				}
 				if !same {
 					tag := ""
+					if strings.HasPrefix(c.name, "GetByTime(") && len(ref[i].offs) == 1 && pubs[ref[i].offs[0]].Seg+1 == d.Seg {
+						// Known finding (DESIGN.md 5, D20): the segment walk goes from the newest segment
+						// to the oldest and reads the first message of the newer segment, which has the
+						// same time, before it finds the older answer
+						var first *pub
+						for k := range pubs {
+							if pubs[k].Seg == d.Seg {
+								first = &pubs[k]
+								break
+							}
+						}
+						if first != nil && first.T == pubs[ref[i].offs[0]].T {
+							tag = " [GetByTime answer is followed by a message of the same time in the damaged next segment]"
+						}
+					}
 					if c.startSeg >= 0 && c.startSeg == d.Seg {
 						// Known finding (DESIGN.md 5, D14): the scan reads the candidates of the
 						// key's hash that are stored before the start offset in the start segment
